@@ -110,7 +110,9 @@ impl RoaringTreemap {
             let key = reader.read_u32::<LittleEndian>()?;
             let bitmap = deserialize_bitmap(&mut reader)?;
 
-            s.map.insert(key, bitmap);
+            if !bitmap.is_empty() {
+                s.map.insert(key, bitmap);
+            }
         }
 
         Ok(s)
